@@ -23,6 +23,7 @@ type Ev struct {
 	S      string    // string argument(s)
 	Ref    int       // referenced canvas id (groups, patterns, masks)
 	Font   backend.Font
+	CTM    [6]float32 // current transformation matrix of the canvas at the time of the call (path and text operations)
 }
 
 func (e Ev) String() string {
@@ -166,7 +167,8 @@ func (r *Recorder) newCanvas(page int, parent *RCanvas, kind string) *RCanvas {
 }
 
 func (c *RCanvas) ev(op string, f ...float32) {
-	c.R.add(Ev{Canvas: c.ID, Page: c.PageIx, Depth: c.depth, Op: op, F: f})
+	m := c.ctm[c.top()]
+	c.R.add(Ev{Canvas: c.ID, Page: c.PageIx, Depth: c.depth, Op: op, F: f, CTM: [6]float32{m.A, m.B, m.C, m.D, m.E, m.F}})
 }
 
 func (c *RCanvas) top() int { return len(c.ctm) - 1 }
